@@ -6,6 +6,7 @@ from sim.steps import LineBudget, BudgetExceeded
 from sim.values import key
 from props.c08 import probes
 
+from props import scaled as SC
 ID = "C12"
 CASES = {"quick": 4000, "thorough": 20000}
 RULE = ("grammar workload of C08 x bounds n in 0..5 and unbounded on finite languages x value-hash schedule x "
@@ -19,6 +20,9 @@ LINE_BUDGET = 3000000
 
 
 def gen(rng, tier):
+    sc = SC.maybe(rng, ID)
+    if sc is not None:
+        return sc
     c = G.gen_cfg(rng, max_vars=5, max_prods=10, max_body=5) if (tier == "thorough" and rng.chance(0.25)) \
         else G.gen_cfg(rng)
     if c["valmode"] == "str" and rng.chance(0.08):
@@ -30,6 +34,12 @@ def gen(rng, tier):
 
 
 def shrink(case):
+    if SC.is_scaled(case):
+        return iter(())
+    return _shrink(case)
+
+
+def _shrink(case):
     for c in G.shrink_cfg(case):
         yield c
     if len(case["bounds"]) > 1:
@@ -71,6 +81,8 @@ def _check_words(out, clause, got, want, **kw):
 
 
 def run(case, out):
+    if SC.is_scaled(case):
+        return SC.run(case, out)
     ref = G.ref_of(case)
     out.shape = G.shape_digest(case) + str(case["bounds"])
     out.fault("value_hash" if case.get("hash") else "hashseed_only")
